@@ -42,6 +42,7 @@ type Config struct {
 	NIDs      int     // size of the id universe (0 = MaxID)
 	VecRange  int     // vector components are drawn from -VecRange..VecRange (0 = 3)
 	VecLine   bool    // components after the first are drawn from 0..6 only
+	Quantised bool    // a trained quantiser decides the distances: only pair comparisons are judged
 	PVec      float64 // probability that a vector property is present on insert (0 = as the others)
 	// EmptyStrings: indexed string values are drawn uniformly, "" included
 	EmptyStrings bool
